@@ -699,7 +699,42 @@ fn p_len_ok(cx: &ProbeCtx, hist: &[OpId], i: usize) -> bool {
 // -------------------------------------------------------------------------------------
 // C06: size arguments
 
+/// the interpreted (Miri-hosted) size probe uses a reduced value set and deals cases out to parts
+fn hosted_sizes() -> bool {
+    static H: std::sync::OnceLock<bool> = std::sync::OnceLock::new();
+    *H.get_or_init(|| std::env::var("LSVERIF_HOSTED_PLAN").is_ok_and(|p| p == "sizes"))
+}
+fn hosted_part() -> Option<(usize, usize)> {
+    let s = std::env::var("LSVERIF_PART").ok()?;
+    let (a, b) = s.split_once('/')?;
+    Some((a.parse().ok()?, b.parse().ok()?))
+}
+
+fn size_values_reduced(len: usize, cap: usize) -> Vec<usize> {
+    let mut v: Vec<usize> = vec![0, 1, INLINE, INLINE + 1];
+    for k in [16u32, 20, 23, 24, usize::BITS - 2, usize::BITS - 1] {
+        let b = 1usize << k;
+        v.extend([b - 1, b, b + 1]);
+    }
+    let im = isize::MAX as usize;
+    v.extend([im - 1, im, im + 1, usize::MAX - 1, usize::MAX]);
+    for x in [im, im + 1, usize::MAX] {
+        v.push(x.wrapping_sub(len));
+        v.push(x.wrapping_sub(len).wrapping_add(1));
+        v.push(x.wrapping_sub(len).wrapping_sub(1));
+    }
+    for x in [len, cap] {
+        v.extend([x.saturating_sub(1), x, x + 1]);
+    }
+    v.sort_unstable();
+    v.dedup();
+    v
+}
+
 pub fn size_values(len: usize, cap: usize) -> Vec<usize> {
+    if hosted_sizes() {
+        return size_values_reduced(len, cap);
+    }
     let mut v: Vec<usize> = vec![0, 1, 2, INLINE - 1, INLINE, INLINE + 1, INLINE + 2];
     for k in 3..usize::BITS {
         let b = 1usize << k;
@@ -876,10 +911,16 @@ pub fn size_probe(cx: &ProbeCtx, hist: &[OpId]) {
     let p0 = replay(prof, hist);
     let slots: Vec<(usize, usize, usize)> = (0..prof.k).filter_map(|i| p0.h(i).map(|h| (i, h.len(), h.capacity()))).collect();
     drop(p0);
+    let part = if hosted_sizes() { hosted_part() } else { None };
+    let mut idx = 0usize;
     for (i, len, cap) in slots {
         for n in size_values(len, cap) {
             for entry in SIZE_ENTRIES {
                 if matches!(entry, SizeEntry::ExtendHint(_) | SizeEntry::ExtendUpper(_)) && len >= LMAX {
+                    continue;
+                }
+                idx += 1;
+                if part.is_some_and(|(k, n)| idx % n != k) {
                     continue;
                 }
                 size_case(cx, hist, i, entry, n, n % 7 == 0);
